@@ -1,0 +1,246 @@
+//go:build verif
+
+package app
+
+import (
+	"context"
+	"errors"
+	"fmt"
+	"net/http"
+	"os"
+	"sync"
+	"time"
+
+	"google.golang.org/grpc"
+
+	"github.com/nuetzliches/hookaido/internal/admin"
+	"github.com/nuetzliches/hookaido/internal/config"
+	"github.com/nuetzliches/hookaido/internal/dispatcher"
+	"github.com/nuetzliches/hookaido/internal/ingress"
+	"github.com/nuetzliches/hookaido/internal/queue"
+)
+
+// VerifApp is the production request wiring of `hookaido run` (runtimeState,
+// loadAuth, reloadConfig, startServers and the management-mutation closures)
+// started in-process for the external verification harness. It only reaches
+// unexported production functions; no decision logic lives here.
+type VerifApp struct {
+	Path     string
+	Store    queue.Store
+	Ingress  http.Handler
+	Pull     http.Handler // mounted with pull_api.prefix (nil without pull routes)
+	Admin    http.Handler // mounted with admin_api.prefix
+	GRPC     *grpc.Server // nil unless pull_api.grpc_listen is set
+	Compiled config.Compiled
+
+	state    *runtimeState
+	now      func() time.Time
+	reloadMu sync.Mutex
+	running  config.Compiled
+	servers  []shutdownServer
+}
+
+// VerifCompile parses and compiles a config file the way `run` does.
+func VerifCompile(path string) (config.Compiled, error) {
+	data, err := os.ReadFile(path)
+	if err != nil {
+		return config.Compiled{}, err
+	}
+	cfg, err := config.Parse(data)
+	if err != nil {
+		return config.Compiled{}, err
+	}
+	compiled, res := config.Compile(cfg)
+	if !res.OK {
+		return config.Compiled{}, errors.New(config.FormatValidationText(res))
+	}
+	return compiled, nil
+}
+
+// VerifNewStore opens the queue store exactly as `run` does for this config.
+func VerifNewStore(compiled config.Compiled, dbPath string) (queue.Store, func() error, error) {
+	store, _, closeFn, err := newQueueStore(compiled, dbPath, "")
+	return store, closeFn, err
+}
+
+// VerifStart wires the servers for the config at path on the given store. With
+// a non-nil now every clock consumer of the request path (rate limiters, HMAC
+// timestamp/nonce checks) reads it instead of the wall clock.
+func VerifStart(path string, store queue.Store, now func() time.Time) (*VerifApp, error) {
+	compiled, err := VerifCompile(path)
+	if err != nil {
+		return nil, err
+	}
+	a := &VerifApp{Path: path, Store: store, Compiled: compiled, now: now, running: compiled}
+	a.state = newRuntimeState(compiled)
+	if err := a.state.loadAuth(compiled); err != nil {
+		return nil, fmt.Errorf("load auth: %w", err)
+	}
+	a.applyClock(compiled, true)
+
+	logger := newDiscardLogger()
+	upsert := func(req admin.ManagementEndpointUpsertRequest) (admin.ManagementEndpointMutationResult, error) {
+		a.reloadMu.Lock()
+		defer a.reloadMu.Unlock()
+		result, updated, err := mutateManagedEndpointConfig(a.Path, a.running, a.state, logger, func(cfg *config.Config, compiled config.Compiled) (admin.ManagementEndpointMutationResult, error) {
+			return applyManagedEndpointUpsert(cfg, compiled, req, a.Store)
+		}, "admin_management_upsert")
+		if err != nil {
+			return admin.ManagementEndpointMutationResult{}, err
+		}
+		a.running = updated
+		a.applyClock(updated, false)
+		return result, nil
+	}
+	del := func(req admin.ManagementEndpointDeleteRequest) (admin.ManagementEndpointMutationResult, error) {
+		a.reloadMu.Lock()
+		defer a.reloadMu.Unlock()
+		result, updated, err := mutateManagedEndpointConfig(a.Path, a.running, a.state, logger, func(cfg *config.Config, compiled config.Compiled) (admin.ManagementEndpointMutationResult, error) {
+			return applyManagedEndpointDelete(cfg, compiled, req, a.Store)
+		}, "admin_management_delete")
+		if err != nil {
+			return admin.ManagementEndpointMutationResult{}, err
+		}
+		a.running = updated
+		a.applyClock(updated, false)
+		return result, nil
+	}
+
+	servers, err := startServers(store, compiled, a.state, logger, nil, newRuntimeMetrics(), upsert, del, func() {})
+	if err != nil {
+		return nil, err
+	}
+	a.servers = servers
+	// startServers returns: ingress, then pull+admin (shared) or [pull,] admin,
+	// then the gRPC handle, then metrics.
+	idx := 0
+	next := func() http.Handler {
+		if idx >= len(servers) {
+			return nil
+		}
+		s, ok := servers[idx].(*http.Server)
+		idx++
+		if !ok {
+			return nil
+		}
+		return s.Handler
+	}
+	a.Ingress = next()
+	if compiled.SharedListener {
+		h := next()
+		a.Admin = h
+		if compiled.HasPullRoutes {
+			a.Pull = h
+		}
+	} else {
+		if compiled.HasPullRoutes {
+			a.Pull = next()
+		}
+		a.Admin = next()
+	}
+	for _, s := range servers {
+		if h, ok := s.(grpcServerHandle); ok {
+			a.GRPC = h.server
+		}
+	}
+	if a.Ingress == nil || a.Admin == nil {
+		a.Close()
+		return nil, errors.New("verif: unexpected server layout from startServers")
+	}
+	return a, nil
+}
+
+// applyClock installs the injected clock on the limiter state and on every
+// HMAC authenticator (they are rebuilt by each loadAuth).
+func (a *VerifApp) applyClock(compiled config.Compiled, rearmLimiters bool) {
+	if a.now == nil {
+		return
+	}
+	a.state.mu.Lock()
+	a.state.now = a.now
+	if rearmLimiters {
+		// buckets were created with the wall clock inside newRuntimeState
+		a.state.configureIngressRateLimits(compiled)
+	}
+	for _, h := range a.state.hmacByRoute {
+		if h != nil {
+			h.Now = a.now
+		}
+	}
+	a.state.mu.Unlock()
+}
+
+// Reload runs the production reload path (SIGHUP / --watch / management
+// mutation all end up in reloadConfig) and reports whether it was applied.
+func (a *VerifApp) Reload() bool {
+	a.reloadMu.Lock()
+	defer a.reloadMu.Unlock()
+	updated, ok := reloadConfig(a.Path, a.running, a.state, newDiscardLogger(), "verif")
+	if ok {
+		a.running = updated
+		a.applyClock(updated, false)
+	}
+	return ok
+}
+
+// Running returns the configuration currently applied.
+func (a *VerifApp) Running() config.Compiled {
+	a.reloadMu.Lock()
+	defer a.reloadMu.Unlock()
+	return a.running
+}
+
+// HMACAuthFor exposes the authenticator the ingress path uses for a route.
+func (a *VerifApp) HMACAuthFor(route string) *ingress.HMACAuth { return a.state.hmacAuthFor(route) }
+
+// AllowIngress is the production rate-limit decision for a route.
+func (a *VerifApp) AllowIngress(route string) bool { return a.state.allowIngress(route) }
+
+// StartDispatcher builds and starts the push dispatcher exactly as `run` does.
+func (a *VerifApp) StartDispatcher(client *http.Client) *dispatcher.PushDispatcher {
+	compiled := a.Compiled
+	policy := dispatcher.EgressPolicy{
+		HTTPSOnly:           compiled.Defaults.EgressPolicy.HTTPSOnly,
+		Redirects:           compiled.Defaults.EgressPolicy.Redirects,
+		DNSRebindProtection: compiled.Defaults.EgressPolicy.DNSRebindProtection,
+		Allow:               mapEgressRules(compiled.Defaults.EgressPolicy.Allow),
+		Deny:                mapEgressRules(compiled.Defaults.EgressPolicy.Deny),
+	}
+	push := &dispatcher.PushDispatcher{
+		Store:     a.Store,
+		Deliverer: dispatcher.NewHTTPDeliverer(client, policy),
+		Routes:    buildDispatchRoutes(compiled),
+		Logger:    newDiscardLogger(),
+		MaxWait:   50 * time.Millisecond,
+	}
+	push.Start()
+	return push
+}
+
+// VerifEgressPolicy maps a compiled egress policy as `run` does.
+func VerifEgressPolicy(compiled config.Compiled) dispatcher.EgressPolicy {
+	return dispatcher.EgressPolicy{
+		HTTPSOnly:           compiled.Defaults.EgressPolicy.HTTPSOnly,
+		Redirects:           compiled.Defaults.EgressPolicy.Redirects,
+		DNSRebindProtection: compiled.Defaults.EgressPolicy.DNSRebindProtection,
+		Allow:               mapEgressRules(compiled.Defaults.EgressPolicy.Allow),
+		Deny:                mapEgressRules(compiled.Defaults.EgressPolicy.Deny),
+	}
+}
+
+// VerifDispatchRoutes maps compiled deliver routes as `run` does.
+func VerifDispatchRoutes(compiled config.Compiled) []dispatcher.RouteConfig {
+	return buildDispatchRoutes(compiled)
+}
+
+// VerifWriteFileAtomic is the config-file replacement used by management mutations.
+func VerifWriteFileAtomic(path string, data []byte) error { return writeFileAtomic(path, data) }
+
+// Close stops the listeners.
+func (a *VerifApp) Close() {
+	ctx, cancel := context.WithTimeout(context.Background(), 2*time.Second)
+	defer cancel()
+	for _, s := range a.servers {
+		_ = s.Shutdown(ctx)
+	}
+}
